@@ -226,7 +226,7 @@ func fatal(f string, a ...interface{}) {
 	os.Exit(2)
 }
 
-func runNode(dir string, upto int64, planFile string, crash string, labelsOut, crashOut string, port int, recoverOnly bool) {
+func runNode(dir string, upto int64, planFile string, crash string, labelsOut, crashOut string, port int, recoverOnly bool, serve int) {
 	w := newWorld()
 	var plan [][]string // plan[i] = transactions meant for height i+1
 	if planFile != "" {
@@ -271,12 +271,29 @@ func runNode(dir string, upto int64, planFile string, crash string, labelsOut, c
 	conf.Set("timeout_commit", 120)
 	conf.Set("pex_reactor", false)
 	conf.Set("fast_sync", false)
+	if serve > 0 { // a node that anybody may connect to (engine c08net): no certificate checks, peer exchange on
+		conf.Set("auth_by_ca", false)
+		conf.Set("non_validator_node_auth", false)
+		conf.Set("pex_reactor", true)
+		conf.Set("addrbook_file", filepath.Join(dir, "addrbook.json"))
+		conf.Set("addrbook_strict", false)
+	}
 	node, err := core.NewNode(conf, "", "evm")
 	if err != nil {
 		fatal("new node: %v", err)
 	}
 	if err := node.Start(); err != nil {
 		fatal("start: %v", err)
+	}
+	if serve > 0 {
+		// run for `serve` seconds, publishing the height; then the process goes away
+		end := time.Now().Add(time.Duration(serve) * time.Second)
+		for time.Now().Before(end) {
+			ioutil.WriteFile(filepath.Join(dir, "height.tmp"), []byte(fmt.Sprint(node.Angine.Height())), 0644)
+			os.Rename(filepath.Join(dir, "height.tmp"), filepath.Join(dir, "height.txt"))
+			time.Sleep(25 * time.Millisecond)
+		}
+		os.Exit(0)
 	}
 	if recoverOnly {
 		// start-up reconciliation is over (NewNode -> ConnectApp -> RecoverFromCrash, Start): stop at the
@@ -547,6 +564,7 @@ func main() {
 	crashOut := flag.String("crashout", "", "")
 	port := flag.Int("port", 46656, "")
 	recoverOnly := flag.Bool("recoveronly", false, "")
+	serve := flag.Int("serve", 0, "")
 	flag.Parse()
 	log.SetLog(zap.NewNop())
 	log.SetAuditLog(zap.NewNop())
@@ -557,7 +575,7 @@ func main() {
 		conf.Set("log_dir", *dir)
 		gemmill.Initialize(&gemmill.Tunes{Runtime: *dir, Conf: conf}, "c06-chain")
 	case *doRun:
-		runNode(*dir, *upto, *plan, *crash, *labels, *crashOut, *port, *recoverOnly)
+		runNode(*dir, *upto, *plan, *crash, *labels, *crashOut, *port, *recoverOnly, *serve)
 	case *doInspect:
 		gcrypto.NodeInit(gcrypto.CryptoType)
 		b, _ := json.Marshal(inspect(*dir))
